@@ -30,6 +30,101 @@ type fn struct {
 	InGuarded     bool   `json:"in_guarded"`
 	Locks         int    `json:"locks"`
 	Workers       string `json:"workers"` // name of the worker-count constant, if the function starts a pool
+	// closing discipline of a goroutine literal: every close(ch) sits in a deferred function (so it runs when the
+	// goroutine returns, i.e. for a pool after wg.Wait()), no close anywhere else; for a pool starter: wg.Wait()
+	// is the last statement and every `go worker` is preceded by wg.Add
+	ClosesDeferred int  `json:"closes_deferred"`
+	ClosesInline   int  `json:"closes_inline"`
+	WaitsLast      bool `json:"waits_last"`
+}
+
+// closeFacts inspects a goroutine literal's body.
+func closeFacts(body *ast.BlockStmt) (deferred, inline int, waitsLast bool) {
+	isClose := func(e ast.Expr) bool {
+		c, ok := e.(*ast.CallExpr)
+		if !ok {
+			return false
+		}
+		id, ok := c.Fun.(*ast.Ident)
+		return ok && id.Name == "close"
+	}
+	var inDefer func(n ast.Node) int
+	inDefer = func(n ast.Node) int {
+		k := 0
+		ast.Inspect(n, func(x ast.Node) bool {
+			if es, ok := x.(*ast.ExprStmt); ok && isClose(es.X) {
+				k++
+			}
+			return true
+		})
+		return k
+	}
+	total := inDefer(body) // close(...) expression statements anywhere in the body, deferred function literals included
+	inLits := 0
+	for _, st := range body.List {
+		if d, ok := st.(*ast.DeferStmt); ok {
+			if fl, ok := d.Call.Fun.(*ast.FuncLit); ok {
+				inLits += inDefer(fl.Body)
+			} else if isClose(d.Call) {
+				deferred++ // defer close(ch)
+			}
+		}
+	}
+	deferred += inLits
+	inline = total - inLits
+	if n := len(body.List); n > 0 {
+		if es, ok := body.List[n-1].(*ast.ExprStmt); ok {
+			if c, ok := es.X.(*ast.CallExpr); ok {
+				if sel, ok := c.Fun.(*ast.SelectorExpr); ok && sel.Sel.Name == "Wait" {
+					waitsLast = true
+				}
+			}
+		}
+	}
+	return
+}
+
+// mainFacts inspects handlePipelineErr: after eg.Wait() the pipeline's context is cancelled and every
+// error channel is drained until it is closed (D24), before the function returns.
+type mainFactsT struct {
+	WaitsReaders bool `json:"waits_readers"`
+	CancelsAfter bool `json:"cancels_after_wait"`
+	DrainsAfter  bool `json:"drains_after_cancel"`
+}
+
+func mainFacts(body *ast.BlockStmt) mainFactsT {
+	var mf mainFactsT
+	stage := 0 // 0: before eg.Wait, 1: after Wait, 2: after cancel()
+	for _, st := range body.List {
+		ast.Inspect(st, func(x ast.Node) bool {
+			if c, ok := x.(*ast.CallExpr); ok {
+				if sel, ok := c.Fun.(*ast.SelectorExpr); ok && sel.Sel.Name == "Wait" && stage == 0 {
+					mf.WaitsReaders = true
+					stage = 1
+				}
+				if id, ok := c.Fun.(*ast.Ident); ok && id.Name == "cancel" && stage == 1 {
+					mf.CancelsAfter = true
+					stage = 2
+				}
+			}
+			return true
+		})
+		if rs, ok := st.(*ast.RangeStmt); ok && stage == 2 {
+			// for _, ech := range echs { for range ech {} }
+			if id, ok := rs.X.(*ast.Ident); ok && id.Name == "echs" {
+				for _, in := range rs.Body.List {
+					if inner, ok := in.(*ast.RangeStmt); ok && len(inner.Body.List) == 0 {
+						mf.DrainsAfter = true
+					}
+				}
+			}
+		}
+		if _, ok := st.(*ast.ReturnStmt); ok && stage < 2 {
+			// an early return before the drain
+			mf.DrainsAfter = false
+		}
+	}
+	return mf
 }
 
 func isCtxDone(e ast.Expr) bool {
@@ -188,6 +283,7 @@ func main() {
 	consts := map[string]int{}
 	errCaps := map[string]string{} // function -> capacity expression of its error channel
 	var fns []fn
+	var mainF mainFactsT
 	// per declared function: goroutine literals it contains, named goroutine bodies it starts
 	// (`go recv.m(...)`, `go f(...)`) and the helpers it calls directly
 	type startInfo struct{ lits, named, calls []string }
@@ -231,6 +327,9 @@ func main() {
 					fname = id.Name + "." + fname
 				}
 			}
+			if fd.Name.Name == "handlePipelineErr" {
+				mainF = mainFacts(fd.Body)
+			}
 			// the function body itself (workers are ordinary methods)
 			fns = append(fns, scanBody(fname, name, fd.Body, consts))
 			recvName, recvType := "", ""
@@ -262,7 +361,9 @@ func main() {
 					goCalls[x.Call] = true
 					if fl, ok := x.Call.Fun.(*ast.FuncLit); ok {
 						k++
-						fns = append(fns, scanBody(fmt.Sprintf("%s.go%d", fname, k), name, fl.Body, consts))
+						lf := scanBody(fmt.Sprintf("%s.go%d", fname, k), name, fl.Body, consts)
+						lf.ClosesDeferred, lf.ClosesInline, lf.WaitsLast = closeFacts(fl.Body)
+						fns = append(fns, lf)
 						si.lits = append(si.lits, fmt.Sprintf("%s.go%d", fname, k))
 					} else if n := calleeName(x.Call.Fun); n != "" {
 						si.named = append(si.named, n)
@@ -303,7 +404,7 @@ func main() {
 			keep = append(keep, f)
 		}
 	}
-	out := map[string]any{"functions": keep, "constants": consts, "err_channel_capacity": errCaps}
+	out := map[string]any{"functions": keep, "constants": consts, "err_channel_capacity": errCaps, "main": mainF}
 	js, _ := json.MarshalIndent(out, "", " ")
 	if len(os.Args) > 2 {
 		os.WriteFile(os.Args[2], js, 0o644)
@@ -400,6 +501,22 @@ func main() {
 		b.WriteString(fmt.Sprintf("  (%q, %s, %s)", k, qlist(l), qlist(n)))
 	}
 	b.WriteString("\n].\n\n")
+	b.WriteString("(* closing discipline of the goroutine literals: (literal, close calls inside deferred functions, close calls elsewhere,\n   the body ends with a Wait() call) *)\n")
+	b.WriteString("Definition closing : list (string * nat * nat * bool) := [\n")
+	firstc := true
+	for _, f := range keep {
+		if !strings.Contains(f.Name, ".go") {
+			continue
+		}
+		if !firstc {
+			b.WriteString(";\n")
+		}
+		firstc = false
+		b.WriteString(fmt.Sprintf("  (%q, %d, %d, %t)", f.Name, f.ClosesDeferred, f.ClosesInline, f.WaitsLast))
+	}
+	b.WriteString("\n].\n\n")
+	b.WriteString("(* handlePipelineErr: waits for the error readers, then cancels the pipeline's context, then drains every error\n   channel until it is closed, and only then returns *)\n")
+	b.WriteString(fmt.Sprintf("Definition main_facts : bool * bool * bool := (%t, %t, %t).\n\n", mainF.WaitsReaders, mainF.CancelsAfter, mainF.DrainsAfter))
 	b.WriteString("Definition err_channel_capacity : list (string * nat) := [\n")
 	for i, k := range en {
 		sep := ";"
